@@ -87,9 +87,37 @@ def docs_tables(repo):
     return out
 
 
+def ids_condition_rule(ctx, rule="R15f"):
+    """The `ids` condition compares the signed element id (node +n / edge -n share slot n): the closure that tests
+    membership compares i64 values and uses no magnitude conversion (as_u64 / as_index / abs), otherwise a stale id of
+    a removed element matches the new occupant of its slot."""
+    fa = ctx.facts
+    b = fa.body("agdb::db::DbImpl::evaluate_condition")
+    if b is None:
+        ctx.ob(rule, "anchor:evaluate_condition", False, "mechanism `DbImpl::evaluate_condition` not found",
+               key="%s|%s|missing-anchor|evaluate_condition" % (ctx.pid, rule))
+        return
+    found = False
+    for cb in fa.closures_of(b.path):
+        if not any(common.norm(cfg.callee(t) or "").endswith("IndexedMapImpl::value") for i, t in cfg.calls(cb)):
+            continue          # the ids closure resolves aliases
+        found = True
+        eqs = [s for bi, s in cfg.assigns(cb) if s["r"]["k"] == "bin" and s["r"]["op"] == "Eq"]
+        signed = [s for s in eqs if all(cfg.op_place(o) and cb.local_ty(cfg.op_place(o)[0]) == "i64" for o in (s["r"]["a"], s["r"]["b"]))]
+        mags = [cfg.callee(t) for i, t in cfg.calls(cb) if (cfg.callee(t) or "").endswith(("::as_u64", "::as_index", "::abs", "::unsigned_abs"))]
+        ok = bool(signed) and not mags
+        ctx.ob(rule, "evaluate_condition:ids-signed", ok,
+               "ids are compared as signed i64 values" if ok else
+               "the ids condition compares magnitudes (%s) instead of signed ids: a removed node's id matches the edge that "
+               "re-used its slot (and vice versa)" % (mags or "no i64 equality found"), cb.where)
+    if not found:
+        ctx.ob(rule, "evaluate_condition:ids-signed", False, "ids membership closure not found (idiom not recognised)", b.where)
+
+
 def run(ctx):
     fa = ctx.facts
     docs = docs_tables(getattr(ctx, "repo", "/repo"))
+    ids_condition_rule(ctx)
     # ---------------- R15a
     for fn, want, op in (("and", want_and, "And"), ("or", want_or, "Or")):
         b = ctx.anchor("R15a", SC + "::" + fn)
